@@ -21,7 +21,7 @@ layout: works on a comment-stripped copy (string literals kept) and keys on name
 import os, re, sys
 
 sys.path.insert(0, os.path.dirname(os.path.abspath(__file__)))
-from common import die, read_source, write_gen  # noqa: E402
+from common import die, read_source, write_gen, inlined_body, order_of, first_pos  # noqa: E402
 
 
 def strip_comments_keep_strings(src, blank=False):
@@ -272,80 +272,109 @@ def main():
 
     # ---- gate.rs --------------------------------------------------------------------------
     gate = cut_tests(strip_comments_keep_strings(read_source(repo, nx + "governance/gate.rs")))
+    gate_fns = set(re.findall(r"\bfn\s+(\w+)", gate))
     kql = fn_body(gate, "kql_permissions")
-    m = re.search(r"let\s+mut\s+needed\s*=\s*(vec!\[[^\]]*\])\s*;", kql)
+    # the accumulator (whatever it is called) starts from a `vec![Permission::…]` and is what the function returns
+    m = re.search(r"let\s+mut\s+(\w+)\s*(?::[^=;]+)?=\s*(vec!\[[^\]]*\])\s*;", kql)
     if not m:
-        die("translator c19: kql_permissions no longer starts from `let mut needed = vec![…]`")
-    kql_base = names(perms_of(m.group(1), "kql base"), "kql_permissions")
-    kql_as_of, kql_belief, seen = [], [], 0
-    for im in re.finditer(r"\bif\s+(.*?)\{\s*needed\.push\(\s*Permission::(\w+)\s*\)\s*;\s*\}", kql, re.S):
+        die("translator c19: kql_permissions no longer starts its answer from a `vec![Permission::…]`")
+    acc = m.group(1)
+    kql_base = names(perms_of(m.group(2), "kql base"), "kql_permissions")
+    kql_as_of, kql_belief, seen, belief_helper = [], [], 0, None
+    for im in re.finditer(r"\bif\s+(.*?)\{\s*" + acc + r"\.push\(\s*Permission::(\w+)\s*\)\s*;?\s*\}", kql, re.S):
         cond, perm = im.group(1), im.group(2)
         seen += 1
+        hm = re.search(r"where_clauses\s*\.\s*iter\(\)\s*\.\s*any\(\s*(?:\|\s*(\w+)\s*\|\s*)?(\w+)\s*(?:\(\s*\1\s*\)\s*)?\)", cond)
         if re.search(r"\bas_of\b", cond) and "is_some" in cond:
             kql_as_of += names([perm], "kql_permissions")
-        elif "projects_belief" in cond and re.search(r"where_clauses\s*\.\s*iter\(\)\s*\.\s*any\b", cond):
+        elif hm and hm.group(2) in gate_fns:
+            if belief_helper not in (None, hm.group(2)):
+                die("translator c19: kql_permissions tests the WHERE clauses with two different helpers")
+            belief_helper = hm.group(2)
             kql_belief += names([perm], "kql_permissions")
         else:
             die(f"translator c19: kql_permissions has a condition this translator does not understand: {cond.strip()[:80]!r}")
-    if seen != len(re.findall(r"needed\.push", kql)):
-        die("translator c19: kql_permissions pushes a permission outside an understood `if`")
-    if not re.search(r"\bneeded\s*$", kql.strip()):
-        die("translator c19: kql_permissions does not end by returning `needed`")
-    pb = fn_body(gate, "projects_belief")
+    if seen != len(re.findall(r"\b" + acc + r"\.(?:push|extend|insert)\b", kql)):
+        die("translator c19: kql_permissions adds a permission outside an understood `if`")
+    if not re.search(r"\b" + acc + r"\s*$", kql.strip()):
+        die("translator c19: kql_permissions does not end by returning the list it built")
+    if belief_helper is None:
+        die("translator c19: kql_permissions no longer asks a helper whether a WHERE clause projects a belief")
+    pb = fn_body(gate, belief_helper)
     belief_leaf, belief_rec = [], []
     for alts, rhs in match_arms(pb, "WhereClause"):
         rhs_c = rhs.rstrip(",").strip()
+        while rhs_c.startswith("{") and rhs_c.endswith("}"):
+            rhs_c = rhs_c[1:-1].strip()
         vs = [v for v, _ in alts]
         if rhs_c == "true":
             belief_leaf += vs
-        elif re.fullmatch(r"clauses\s*\.\s*iter\(\)\s*\.\s*any\(\s*projects_belief\s*\)", rhs_c):
+        elif re.fullmatch(r"\w+\s*\.\s*iter\(\)\s*\.\s*any\(\s*(?:\|\s*(\w+)\s*\|\s*)?" + belief_helper + r"\s*(?:\(\s*\1\s*\)\s*)?\)", rhs_c):
             belief_rec += vs
         elif rhs_c == "false":
             if vs != ["_"]:
-                die("translator c19: projects_belief: an explicit `false` arm on named variants")
+                die(f"translator c19: {belief_helper}: an explicit `false` arm on named variants")
         else:
-            die(f"translator c19: projects_belief arm not understood: {rhs_c[:60]!r}")
+            die(f"translator c19: {belief_helper} arm not understood: {rhs_c[:60]!r}")
     for v in belief_leaf + belief_rec:
         if v not in [x for x, _ in where_vars]:
-            die(f"translator c19: projects_belief names unknown WhereClause::{v}")
+            die(f"translator c19: {belief_helper} names unknown WhereClause::{v}")
+    # emitted in AST order: the order of independent match arms carries no meaning
+    where_order = [x for x, _ in where_vars]
+    belief_leaf.sort(key=where_order.index)
+    belief_rec.sort(key=where_order.index)
 
     meta = fn_body(gate, "meta_permissions")
-    meta_table, meta_describe = [], None
+    meta_table, meta_describe, describe_helper = [], None, None
     for alts, rhs in match_arms(meta, "MetaCommand"):
         ps = perms_of(rhs, "meta_permissions")
         for v, _tail in alts:
             if v == "_":
                 die("translator c19: meta_permissions has a wildcard arm (a new META command would be ungated silently)")
             if ps is None:
-                if re.fullmatch(r"describe_permissions\(\s*target\s*\),?", rhs.strip()):
-                    meta_describe = v
+                hm = re.fullmatch(r"(\w+)\(\s*&?\w+\s*\),?", rhs.strip().strip("{}").strip())
+                if hm and hm.group(1) in gate_fns and meta_describe is None:
+                    meta_describe, describe_helper = v, hm.group(1)
                     continue
                 die(f"translator c19: meta_permissions arm for {v} not understood: {rhs[:60]!r}")
             meta_table.append((v, names(ps, "meta_permissions")))
     if meta_describe is None:
-        die("translator c19: meta_permissions no longer delegates Describe to describe_permissions")
+        die("translator c19: meta_permissions no longer hands DESCRIBE to a per-target helper")
     dups = {v for v, _ in meta_table if [x for x, _ in meta_table].count(v) > 1}
     if dups:
         die(f"translator c19: meta_permissions lists {sorted(dups)} twice")
+    for v, _ in meta_table:
+        if v not in meta_vars:
+            die(f"translator c19: meta_permissions names unknown MetaCommand::{v}")
+    meta_table.sort(key=lambda r: meta_vars.index(r[0]))
 
-    desc = fn_body(gate, "describe_permissions")
+    desc = fn_body(gate, describe_helper)
     describe_table, describe_default = [], None  # (variant, guard, perms)
+    seen_unguarded = set()
     for alts, rhs in match_arms(desc, "DescribeTarget"):
         ps = perms_of(rhs, "describe_permissions")
         if ps is None:
-            die(f"translator c19: describe_permissions arm not understood: {rhs[:60]!r}")
+            die(f"translator c19: {describe_helper} arm not understood: {rhs[:60]!r}")
         for v, tail in alts:
             if v == "_":
                 describe_default = names(ps, "describe_permissions")
                 continue
+            if v not in describe_vars:
+                die(f"translator c19: {describe_helper} names unknown DescribeTarget::{v}")
             guard = ""
             if re.search(r"as_of\s*:\s*Some", tail):
                 guard = "as_of"
             elif re.search(r"\bSome\b|\bNone\b|\bif\b", tail):
-                die(f"translator c19: describe_permissions pattern on {v} has a guard this translator does not understand")
+                die(f"translator c19: {describe_helper} pattern on {v} has a guard this translator does not understand")
+            if describe_default is not None or v in seen_unguarded:
+                die(f"translator c19: {describe_helper}: the arm for {v} can never be reached (it follows a catch-all for it)")
+            if not guard:
+                seen_unguarded.add(v)
             describe_table.append((v, guard, names(ps, "describe_permissions")))
     if describe_default is None:
-        die("translator c19: describe_permissions lost its default arm")
+        die(f"translator c19: {describe_helper} lost its default arm")
+    # AST order, a guarded arm before the unguarded one of the same target (reachability was checked above)
+    describe_table.sort(key=lambda r: (describe_vars.index(r[0]), r[1] == ""))
 
     clause = fn_body(gate, "clause_permissions")
     clause_table = []
@@ -356,10 +385,16 @@ def main():
         for v, _ in alts:
             if v == "_":
                 die("translator c19: clause_permissions has a wildcard arm (a new clause would be governed by default)")
+            if v not in clause_vars:
+                die(f"translator c19: clause_permissions names unknown MutationClause::{v}")
             clause_table.append((v, names(ps, "clause_permissions")))
+    clause_table.sort(key=lambda r: clause_vars.index(r[0]))
     kmlf = fn_body(gate, "kml_permissions")
-    if not re.search(r"for\s+clause\s+in\s+&?statement\.clauses", kmlf) or "clause_permissions(clause)" not in kmlf:
-        die("translator c19: kml_permissions is no longer the union of clause_permissions over statement.clauses")
+    # the union over the statement's clauses, first mention first, no repeats — however the two loops are spelled
+    if (not re.search(r"statement\s*\.\s*clauses", kmlf) or not re.search(r"\bclause_permissions\b", kmlf)
+            or not re.search(r"\.contains\(", kmlf) or not re.search(r"\.push\(", kmlf)
+            or re.search(r"\bsort|\bdedup|\brev\(|HashSet|BTreeSet|\.filter\(|\.take\(|\.skip\(", kmlf)):
+        die("translator c19: kml_permissions is no longer the first-mention union of clause_permissions over statement.clauses")
 
     # ---- decision.rs ----------------------------------------------------------------------
     dec = cut_tests(strip_comments_keep_strings(read_source(repo, nx + "governance/decision.rs")))
@@ -367,34 +402,48 @@ def main():
     if len(m) != 1:
         die("translator c19: expected exactly one `const MAX_DELEGATION_DEPTH: usize`")
     max_depth = int(m[0].replace("_", ""))
-    auth = fn_body(dec, "authorize")
-    markers = [
-        ("inactive_principal", r"self\.principal\.status\s*!=\s*status::ACTIVE"),
-        ("suspended_space", r'self\.space\.status\s*==\s*"suspended"'),
-        ("default_classification", r"self\.default_classification\(\)"),
-        ("deny_statements", r'statement\.effect\s*==\s*"deny"'),
-        ("owner", r"if\s+self\.is_owner\b"),
-        ("candidates", r"for\s+candidate\s+in\s+&self\.candidates"),
-        ("allow_statements", r'statement\.effect\s*!=\s*"allow"'),
-        ("choose_least_restrictive", r"\.min_by_key\("),
-        ("approvals", r"obligations\.approvals_required\s*>\s*0"),
-    ]
-    pos = []
-    for tag, rx in markers:
-        found = list(re.finditer(rx, auth))
-        if len(found) != 1:
-            die(f"translator c19: authorize: expected exactly one marker for stage {tag}, found {len(found)}")
-        pos.append((found[0].start(), tag))
-    stages = [t for _, t in sorted(pos)]
-    # every early `return deny(` must sit right after the stage that guards it
-    deny_returns = [mm.start() for mm in re.finditer(r"return\s+deny\(", auth)]
+    # `authorize` with every private helper of the file textually inlined: the stages are keyed on what is tested / called,
+    # never on the names of locals, closures or loop variables
+    auth = inlined_body(dec, "authorize")
+    inl = lambda name: r"/\*" + name + r"\*/"
+    stage_markers = {
+        "inactive_principal": r"\bprincipal\s*\.\s*status\s*!=\s*status::ACTIVE",
+        "suspended_space": r'\bspace\s*\.\s*status\s*==\s*"suspended"',
+        "default_classification": [r"\bdefault_classification\(\)", inl("default_classification")],
+        "deny_statements": r'\.\s*effect\s*==\s*"deny"',
+        "owner": r"\bself\s*\.\s*is_owner\b",
+        "candidates": r"\bself\s*\.\s*candidates\b",
+        "allow_statements": r'\.\s*effect\s*(?:!=|==)\s*"allow"',
+        "choose_least_restrictive": r"\.\s*min_by_key\(",
+        "approvals": r"\bapprovals_required\s*>\s*0",
+    }
+    stages = order_of(auth, stage_markers)
+    for tag in ("deny_statements", "allow_statements", "choose_least_restrictive", "approvals", "inactive_principal", "suspended_space"):
+        rx = stage_markers[tag]
+        if len(re.findall(rx, auth)) != 1:
+            die(f"translator c19: authorize: expected exactly one test for stage {tag}, found {len(re.findall(rx, auth))}")
+    pos = sorted((first_pos(auth, rx), tag) for tag, rx in stage_markers.items())
+    # the refusals: every `return` whose value is the Deny authorization (built by a local closure of any name, by a
+    # helper, or in place); each must sit right after the stage that guards it
+    cm = re.search(r"let\s+(\w+)\s*=\s*\|[^|]*\|\s*Authorization\s*\{[^{}]*?decision\s*:\s*Decision::Deny", auth, re.S)
+    deny_closure = cm.group(1) if cm else None
     deny_after = []
-    for p in deny_returns:
-        prev = [t for q, t in sorted(pos) if q < p]
-        deny_after.append(prev[-1] if prev else "<start>")
-    owner_block = block_after(auth, re.search(r"if\s+self\.is_owner\b", auth).end())
-    owner_export = bool(re.search(r"export\s*:\s*true", owner_block))
-    owner_deleg = bool(re.search(r"delegation_allowed\s*:\s*true", owner_block))
+    for mm in re.finditer(r"\breturn\b", auth):
+        j, depth = mm.end(), 0
+        while j < len(auth) and not (auth[j] == ";" and depth == 0):
+            if auth[j] in "([{": depth += 1
+            elif auth[j] in ")]}": depth -= 1
+            j += 1
+        value = auth[mm.end():j]
+        is_deny = ("Decision::Deny" in value) or (deny_closure is not None and re.match(r"\s*" + deny_closure + r"\s*\(", value))
+        if is_deny:
+            prev = [t for q, t in pos if q < mm.start()]
+            deny_after.append(prev[-1] if prev else "<start>")
+    # the owner's synthetic candidate: whatever is pushed between the owner test and the walk over the held candidates
+    o0, o1 = first_pos(auth, stage_markers["owner"]), first_pos(auth, stage_markers["candidates"])
+    owner_block = auth[o0:o1] if 0 <= o0 < o1 else ""
+    owner_export = bool(re.search(r"\bexport\s*:\s*true", owner_block))
+    owner_deleg = bool(re.search(r"\bdelegation_allowed\s*:\s*true", owner_block))
     rd = fn_body(dec, "resolve_delegation")
     if not re.search(r"if\s+depth\s*>=\s*MAX_DELEGATION_DEPTH\s*\{\s*return\s+Ok\(None\)", rd):
         die("translator c19: resolve_delegation lost its `depth >= MAX_DELEGATION_DEPTH` bound")
@@ -412,20 +461,30 @@ def main():
                 if depth == 0: return text[i + 1:j]
             j += 1
         die("translator c19: unbalanced parentheses in resolve_delegation")
-    closures = [paren_block(rd, m.end() - 1) for m in re.finditer(r"parent\s*\.\s*candidates\s*\.\s*iter\(\)\s*\.\s*any\s*\(", rd)]
-    markers = [r"candidate\s*\.\s*delegation_allowed", r"held\s*==\s*permission\.as_str\(\)", r"candidate\s*\.\s*scope\s*\.\s*contains\(\s*&scope\s*\)",
-               r"candidate\s*\.\s*conditions\s*\.\s*contains\(\s*&conditions\s*\)", r"candidate\s*\.\s*constraints\s*\.\s*contains\(\s*&constraints\s*\)"]
-    one_closure = (len(closures) == 1 and all(re.search(mk, closures[0]) for mk in markers)
-                   and all(len(re.findall(mk, rd)) == 1 for mk in markers)
-                   and re.search(r"\|\|\s*parent\.is_owner", rd) is not None)
+    root_branch = rd
+    mb0 = re.search(r"if\s*!\s*\w+\s*\.\s*parent_delegation\s*\.\s*is_empty\(\)\s*\{", rd)
+    if mb0:
+        blk = block_after(rd, mb0.end() - 1)
+        root_branch = rd[rd.index(blk, mb0.end() - 1) + len(blk):]
+    closure_ms = list(re.finditer(r"\.\s*candidates\s*\.\s*iter\(\)\s*\.\s*any\s*\(\s*\|\s*(\w+)\s*\|", root_branch))
+    one_closure = False
+    if len(closure_ms) == 1:
+        cp = closure_ms[0].group(1)
+        closure = paren_block(root_branch, root_branch.rindex("any", 0, closure_ms[0].end()))
+        inside = [cp + r"\s*\.\s*delegation_allowed\b", cp + r"\s*\.\s*actions\b[^;]*?\.\s*as_str\(\)",
+                  cp + r"\s*\.\s*scope\s*\.\s*contains\(", cp + r"\s*\.\s*conditions\s*\.\s*contains\(", cp + r"\s*\.\s*constraints\s*\.\s*contains\("]
+        anywhere = [r"\.\s*scope\s*\.\s*contains\(", r"\.\s*conditions\s*\.\s*contains\(", r"\.\s*constraints\s*\.\s*contains\(", r"\.\s*delegation_allowed\b(?!\s*:)"]
+        one_closure = (all(re.search(mk, closure, re.S) for mk in inside)
+                       and all(len(re.findall(mk, root_branch)) == 1 for mk in anywhere)
+                       and re.search(r"\|\|\s*\w+\s*\.\s*is_owner\b", root_branch) is not None)
     # the re-delegation branch: the Principal who re-delegated is looked up and must be ACTIVE before the recursion
     # into the linked parent (repair of finding F-C19-4)
-    m_branch = re.search(r"if\s*!\s*delegation\.parent_delegation\.is_empty\(\)\s*\{", rd)
+    m_branch = mb0
     if not m_branch:
-        die("translator c19: resolve_delegation lost its `if !delegation.parent_delegation.is_empty()` branch")
+        die("translator c19: resolve_delegation lost its `if !….parent_delegation.is_empty()` branch")
     branch = block_after(rd, m_branch.end() - 1)
-    m_live = re.search(r"find_principal\(\s*&delegation\.delegator_principal\s*\)", branch)
-    m_rec = re.search(r"resolve_delegation\(\s*store\s*,\s*space_id\s*,\s*&linked\s*,", branch)
+    m_live = re.search(r"find_principal\(\s*&?\s*\w+\s*\.\s*delegator_principal\s*\)", branch)
+    m_rec = re.search(r"\bresolve_delegation\(", branch)
     if not m_rec:
         die("translator c19: the re-delegation branch no longer resolves the linked parent Delegation")
     redelegator_checked = bool(m_live and m_live.start() < m_rec.start()
@@ -437,22 +496,32 @@ def main():
     m = re.search(r"impl\s+Executor\s+for\s+Session\s*\{", nexus)
     if not m:
         die("translator c19: `impl Executor for Session` not found")
-    ex = fn_body(block_after(nexus, m.end() - 1), "execute")
+    # Session's `execute` with the private helpers of nexus.rs inlined (a `run_kml` / `run_kql` / `run_meta` split, or `gate`,
+    # `settle`, `authority` being methods, does not change what happens in which order)
+    if nexus.index("fn execute") < m.start():
+        die("translator c19: another `fn execute` precedes `impl Executor for Session` in nexus.rs")
+    ex = inlined_body(nexus[m.start():], "execute")
     exec_rows = []
-    arm_pos = [(mm.start(), mm.group(1)) for mm in re.finditer(r"Command::(\w+)\(\w+\)\s*=>\s*\{", ex)]
+    arm_pos = [(mm.end() - 1, mm.group(1)) for mm in re.finditer(r"Command::(\w+)\(\w+\)\s*=>\s*\{", ex)]
     if sorted(v for _, v in arm_pos) != sorted(command_vars):
         die(f"translator c19: Session::execute arms {[v for _, v in arm_pos]} differ from Command variants {command_vars}")
-    for p, v in arm_pos:
-        body = block_after(ex, p)
-        lock = re.findall(r"self\.nexus\.lock\.(read|write)\(\)", body)
-        gatef = re.findall(r"gate::(\w+)\(", body)
-        execu = re.findall(r"crate::(\w+)::execute\(", body)
+    for p0, v in arm_pos:
+        body = block_after(ex, p0)
+        lock = sorted(set(re.findall(r"\block\s*\.\s*(read|write)\(\)", body)))
+        gatef = sorted(set(re.findall(r"gate::(\w+_permissions)\(", body)))
+        execu = sorted(set(re.findall(r"crate::(\w+)::execute\(", body)))
         if len(lock) != 1 or len(gatef) != 1 or len(execu) != 1:
             die(f"translator c19: Session::execute arm {v}: expected one lock / gate table / executor, found {lock} {gatef} {execu}")
-        order = sorted([(body.index("self.authority("), "resolve"), (body.index("gate::" + gatef[0]), "permissions"),
-                        (body.index("self.gate("), "gate"), (body.index("crate::" + execu[0] + "::execute("), "execute"),
-                        (body.index("self.settle("), "settle"), (body.index("self.nexus.lock." + lock[0]), "lock")])
-        exec_rows.append((v, lock[0], gatef[0], execu[0], [t for _, t in order]))
+        order = order_of(body, {
+            "lock": r"\block\s*\.\s*" + lock[0] + r"\(\)",
+            "resolve": [r"EffectiveAuthority::resolve\(", r"\bself\s*\.\s*authority\(", inl("authority")],
+            "permissions": r"gate::" + gatef[0] + r"\(",
+            "gate": [r"approval::resolve\(", r"\bself\s*\.\s*gate\(", inl("gate")],
+            "execute": r"crate::" + execu[0] + r"::execute\(",
+            "settle": [r"\.\s*spend\(", r"\bself\s*\.\s*settle\(", inl("settle")],
+        })
+        exec_rows.append((v, lock[0], gatef[0], execu[0], order))
+    exec_rows.sort(key=lambda r: command_vars.index(r[0]))
 
     # ---- which control-plane mutators the executors name ------------------------------------
     mutators = ["ensure_principal", "set_principal_status", "put_group", "create_binding", "revoke_binding",
@@ -492,15 +561,21 @@ def main():
 
     # ---- tx.rs: the two control-plane touches a commit makes ------------------------------
     txs = cut_tests(strip_comments_keep_strings(read_source(repo, nx + "tx.rs"), blank=True))
-    pg = fn_body(txs, "propagate_governance")
-    n_gm = len(re.findall(r"\.\s*governance_mut\s*\(", txs))
-    gm_in_pg = list(re.finditer(r"\.\s*governance_mut\s*\(", pg))
-    guard = re.search(r"if\s*!\s*staged\.is_new\s*\{\s*continue\s*;\s*\}", pg)
-    tx_gm_guarded = n_gm == 1 and len(gm_in_pg) == 1 and guard is not None and guard.start() < gm_in_pg[0].start()
-    n_rm = len(re.findall(r"\.\s*record_mutation\s*\(", txs))
-    tx_rm_deferred = n_rm == 1 and re.search(
-        r"for\s+entry\s+in\s+std::mem::take\(\s*&mut\s+self\.governance_audit\s*\)\s*\{\s*self\.store\.governance\.record_mutation\(entry\)",
-        txs) is not None
+    # (a) the only `governance_mut()` of tx.rs sits — in whatever function — behind a guard that skips every staged element
+    #     that is not new (`if !<x>.is_new { continue; }`, or the positive form wrapping the rest)
+    gm_calls = list(re.finditer(r"\.\s*governance_mut\s*\(", txs))
+    tx_gm_guarded = False
+    if len(gm_calls) == 1:
+        fn_starts = [mm.start() for mm in re.finditer(r"\bfn\s+\w+", txs) if mm.start() < gm_calls[0].start()]
+        host = block_after(txs, fn_starts[-1]) if fn_starts else ""
+        k = host.find("governance_mut")
+        before = host[:k] if k >= 0 else ""
+        tx_gm_guarded = bool(re.search(r"if\s*!\s*[\w.]+\.\s*is_new\s*\{\s*(?:continue|return\b[^;]*)\s*;?\s*\}", before)
+                             or re.search(r"if\s+[\w.]+\.\s*is_new\s*\{(?![^{}]*\})", before))
+    # (b) the only `record_mutation` of tx.rs replays, in order, the audit entries the statement itself deferred
+    rm_calls = re.findall(r"\.\s*record_mutation\s*\(", txs)
+    tx_rm_deferred = len(rm_calls) == 1 and (
+        re.search(r"for\s+(\w+)\s+in\s+(?:std::mem::take\(\s*&mut\s+self\s*\.\s*governance_audit\s*\)|self\s*\.\s*governance_audit\s*\.\s*drain\(\s*\.\.\s*\))\s*\{[^{}]*?\.\s*record_mutation\(\s*\1\s*\)", txs, re.S) is not None)
     elem_ops = ["classify", "elevate_authority", "quarantine", "release"]
     elem_calls = []
     for mod, files in modules.items():
